@@ -244,11 +244,24 @@ def r4_holding(ctx):
         t = body.term(b)
         return t["k"] == "call" and t["f"].get("key") == R + "insert" and t["f"].get("gargs") == ["T"]
 
-    # Err exits of lookups of the function-local Marker<T> are excluded (see ASSUMPTIONS)
+    # the placeholder: the (function-local) type inserted before the take-out, into the scope find_mut::<T>() returned
+    import re
+    mks = [(bb, t) for bb, t in body.calls() if t["f"].get("key") == R + "insert" and t["f"].get("gargs") != ["T"] and body.dominates(bb, removes[0][0])]
+    if not ctx.check(len(mks) == 1, "C02.R4", fn.key, "placeholder", "no single placeholder is left in T's scope before the take-out", kind="undecided-shape", loc=fn.loc()):
+        return
+    marker_ty = mks[0][1]["f"]["gargs"][0]
+    generic_in_T = re.search(r"<(.*\b)?T\b.*>$", marker_ty) is not None
+    ctx.check(generic_in_T and "::holding::" in marker_ty, "C02.R4", fn.key, "placeholder-per-type",
+              "the placeholder type %s is not a function-local type parameterised by T: nested holding() calls for different types would share one "
+              "placeholder key and put their states back into each other's scope" % marker_ty, detail=marker_ty, loc=fn.loc(mks[0][1].get("line")))
+
+    def is_marker(t):
+        return (t["f"].get("gargs") or [None])[0] == marker_ty
+
+    # Err exits of lookups of the function-local placeholder are excluded (see ASSUMPTIONS)
     excluded = set()
     for bb, t in body.calls():
-        ga = t["f"].get("gargs") or []
-        if any("holding::Marker<" in g for g in ga) and t["f"].get("key") in (R + "find_mut", R + "find"):
+        if is_marker(t) and t["f"].get("key") in (R + "find_mut", R + "find"):
             s2 = try_split(body, bb)
             if s2:
                 excluded.add(s2[1])
@@ -257,33 +270,29 @@ def r4_holding(ctx):
     if path:
         cls = "Err" if any(is_call_to(body.term(b), FROM_RESIDUAL) for b in path) else "Ok"
     ctx.check(path is None, "C02.R4", fn.key, "put-back-on-every-return",
-              "after T is taken out (bb%d) a path returns (%s exit) without insert::<T>(): blocks %s — if the closure fails, T is lost and Marker<T> stays behind"
+              "after T is taken out (bb%d) a path returns (%s exit) without insert::<T>(): blocks %s — if the closure fails, T is lost and the placeholder stays behind"
               % (removes[0][0], cls, path), loc=fn.loc())
-    # put back into the scope it came from: the insert target is the scope holding Marker<T>, and the marker
+    # put back into the scope it came from: the insert target is the scope holding the placeholder, and the placeholder
     # was inserted into the scope find_mut::<T>() returned
     ins = [(bb, t) for bb, t in body.calls() if reinserts(bb)]
     for bb, t in ins:
         e = body.expr_of_op(t["args"][0])
         fm = [x for x in subexprs(e) if x[0] == "call" and x[1] == R + "find_mut"]
-        good = len(fm) == 1 and any("holding::Marker<" in g for g in (fm[0][3]["f"].get("gargs") or []))
-        ctx.check(good, "C02.R4", fn.key, "put-back-where-marker-is", "T is re-inserted into %s, not into the scope holding Marker<T>" % expr_str(e)[:120], loc=fn.loc(t.get("line")))
-    mk = [(bb, t) for bb, t in body.calls() if t["f"].get("key") == R + "insert" and any("holding::Marker<" in g for g in (t["f"].get("gargs") or []))]
-    good = len(mk) == 1
-    if good:
-        e = body.expr_of_op(mk[0][1]["args"][0])
-        fm = [x for x in subexprs(e) if x[0] == "call" and x[1] == R + "find_mut"]
-        good = len(fm) == 1 and fm[0][3]["f"].get("gargs") == ["T"] and body.dominates(mk[0][0], removes[0][0])
-        e2 = body.expr_of_op(removes[0][1]["args"][0])
-        fm2 = [x for x in subexprs(e2) if x[0] == "call" and x[1] == R + "find_mut"]
-        good = good and len(fm2) == 1 and fm2[0][3]["f"].get("gargs") == ["T"]
-    ctx.check(good, "C02.R4", fn.key, "marker-in-source-scope", "Marker<T> is not left in the scope T is removed from (find_mut::<T>()) before the take-out", loc=fn.loc())
-    # marker removed on every return after it was inserted (same exclusions)
-    if len(mk) == 1:
-        def rm_marker(b):
-            t = body.term(b)
-            return t["k"] == "call" and t["f"].get("key") == R + "remove" and any("holding::Marker<" in g for g in (t["f"].get("gargs") or []))
-        path = must_pass(body, start, rm_marker, excluded_blocks=excluded)
-        ctx.check(path is None, "C02.R4", fn.key, "marker-removed-on-every-return", "a path returns with Marker<T> left in the state: blocks %s" % path, loc=fn.loc())
+        good = len(fm) == 1 and (fm[0][3]["f"].get("gargs") or [None])[0] == marker_ty
+        ctx.check(good, "C02.R4", fn.key, "put-back-where-placeholder-is", "T is re-inserted into %s, not into the scope holding the placeholder" % expr_str(e)[:120], loc=fn.loc(t.get("line")))
+    e = body.expr_of_op(mks[0][1]["args"][0])
+    fm = [x for x in subexprs(e) if x[0] == "call" and x[1] == R + "find_mut"]
+    good = len(fm) == 1 and fm[0][3]["f"].get("gargs") == ["T"]
+    e2 = body.expr_of_op(removes[0][1]["args"][0])
+    fm2 = [x for x in subexprs(e2) if x[0] == "call" and x[1] == R + "find_mut"]
+    good = good and len(fm2) == 1 and fm2[0][3]["f"].get("gargs") == ["T"]
+    ctx.check(good, "C02.R4", fn.key, "placeholder-in-source-scope", "the placeholder is not left in the scope T is removed from (find_mut::<T>()) before the take-out", loc=fn.loc())
+
+    def rm_marker(b):
+        t = body.term(b)
+        return t["k"] == "call" and t["f"].get("key") == R + "remove" and is_marker(t)
+    path = must_pass(body, start, rm_marker, excluded_blocks=excluded)
+    ctx.check(path is None, "C02.R4", fn.key, "placeholder-removed-on-every-return", "a path returns with the placeholder left in the state: blocks %s" % path, loc=fn.loc())
 
 
 def run(ctx):
